@@ -109,6 +109,7 @@ def build_streams(rng, tier):
         Stream("queries", lines, h, **kw),
         Stream("space-enumeration", spaces, h, **kw),
         Stream("all-single-queries-n<=3", allq, h, **kw),
+        history_stream("C08", rng, tier),
     ]
 
 RULE = ("generator collections as in C01 on n<=5 (thorough 6); query sets drawn from inside the closure, outside it, mixed, the generators "
